@@ -71,7 +71,25 @@ CLAIMED = {
 REASON_PENDING = "check not built yet in this session; planned as described in DESIGN.md §7 (no other technique substituted)"
 
 
+def load_fragments():
+    """harness/manifest.d/Cxx.json: {"text":..., "note":..., "technique":..., "design_ref":...} per claimed
+    property, or {"not_applicable": reason}."""
+    d = os.path.join(VERIF, "harness", "manifest.d")
+    if not os.path.isdir(d):
+        return
+    for f in sorted(os.listdir(d)):
+        if f.endswith(".json"):
+            pid = f[:-5]
+            j = json.load(open(os.path.join(d, f)))
+            if "not_applicable" in j:
+                NA[pid] = j["not_applicable"]
+                CLAIMED.pop(pid, None)
+            else:
+                CLAIMED[pid] = (j["text"], j.get("note", ""), j["technique"], j.get("design_ref", "DESIGN.md §7 %s, §14" % pid))
+
+
 def main():
+    load_fragments()
     props = [json.loads(l) for l in open(os.path.join(VERIF, "properties.jsonl"))]
     checks, na = [], []
     for p in props:
